@@ -44,11 +44,24 @@ def astExpect : String :=
   traceU <ev> <ev> ...       the same for a Session whose statement cache cannot purge for capacity (MaxPreparedStmts 0
                              or at least the number of distinct keys): every R must be justified (`Obs.justified`)
   events (no blanks inside):
-    S:<c>:<q|b>:<key>/<nvals>,...        call c starts (query / batch), entries
-    P:<f>:<key>:ok/<idhex>/<ncols>       the server received PREPARE number f of <key> and answers PREPARED
-    P:<f>:<key>:err                      ... answers with an error
+    S:<c>:<q|b>:<key>/<nvals>,...        call c starts (query / batch), entries (nvals = 1000 + n: n bound values one of
+                                         which cannot be marshalled into any column type - matches no bind metadata)
+    P:<f>:<key>:ok/<idhex>/<ncols>/<sighex>
+                                         the server received PREPARE number f of <key> and answers PREPARED with that
+                                         id, that many bind columns and bind column types whose value widths are <sig>
+                                         (one byte per column; "-" = none)
+    P:<f>:<key>:err[/<how>]              ... the PREPARE fails: the server answers with an ERROR frame (frame), with a frame
+                                         the driver cannot decode (undecodable), with a well-formed answer of another
+                                         kind (other-kind), or not at all, so that the driver's request timeout ends the
+                                         flight's Conn.exec (silent) - the four failure paths of prepareStatement
     R:<key>:<f>                          flight f left the statement cache (OnEvicted)
-    X:<c>:<idhex>,...:<ok|err|un/<idhex>> the server received call c's EXECUTE / BATCH with these ids and answers
+    X:<c>:<idhex>/<sighex>,...:<ok|err|un/<idhex>/<sighex>>
+                                         the server received call c's EXECUTE / BATCH; per prepared entry the id and the
+                                         byte widths of the values as the driver encoded them (the bind metadata it used);
+                                         un/...: UNPREPARED for that id (<sig>: the widths the server had issued with it)
+                                         An id and its widths are ONE token for the specification (`PConn.token`): a frame
+                                         whose values were encoded with the metadata of another PREPARE is a frame whose
+                                         token no current PREPARE of that statement returned.
     T:<c>:<ok|xe|ce|pe/<f>|ctx>          call c returned: success, the server's execute error, value-count error,
                                          the failure of PREPARE f, its own context error (Canceled / DeadlineExceeded)
     K:<c>                                the context of call c is done from here on (logged BEFORE cancelling; for a
@@ -64,12 +77,22 @@ def parseEntry (w : String) : Option (String × Nat) :=
   | [k, n] => n.toNat?.map fun n => (k, n)
   | _ => none
 
+/-- `<idhex>/<sighex>` (or, older histories, `<idhex>` alone: no widths observed) ↦ the token -/
+def parseTok (ws : List String) : Option PConn.Id :=
+  match ws with
+  | [id] => (parseHex id).map fun i => PConn.token i []
+  | [id, sg] =>
+    match parseHex id, parseHex sg with
+    | some i, some g => some (PConn.token i g)
+    | _, _ => none
+  | _ => none
+
 def parseXAns (ws : List String) : Option PConn.XAns :=
   match ws with
   | ["ok"] => some .ok
   | ["err"] => some .err
   | [u] => match u.splitOn "/" with
-    | ["un", id] => (parseHex id).map .unprep
+    | "un" :: t => (parseTok t).map .unprep
     | _ => none
   | _ => none
 
@@ -82,14 +105,15 @@ def parseEv (w : String) : Option (PConn.Ev String) :=
   | ["P", f, k, r] =>
     match f.toNat?, r.splitOn "/" with
     | some f, ["err"] => some (.prep f k none)
-    | some f, ["ok", id, n] =>
-      match parseHex id, n.toNat? with
-      | some id, some n => some (.prep f k (some (id, n)))
+    | some f, ["err", _] => some (.prep f k none)
+    | some f, "ok" :: id :: n :: sg =>
+      match parseTok (id :: sg), n.toNat? with
+      | some t, some n => some (.prep f k (some (t, n)))
       | _, _ => none
     | _, _ => none
   | ["R", k, f] => f.toNat?.map fun f => .rm k f
   | "X" :: c :: ids :: a =>
-    match c.toNat?, (ids.splitOn ",").mapM parseHex, parseXAns a with
+    match c.toNat?, (ids.splitOn ",").mapM (fun w => parseTok (w.splitOn "/")), parseXAns a with
     | some c, some ids, some a => some (.exec c ids a)
     | _, _, _ => none
   | ["T", c, o] =>
@@ -167,26 +191,32 @@ def judge (strict : Bool) (ws : List String) : String :=
       if w.startsWith "L:" then s!"reject:{i}:{w}:execution-does-not-terminate(frames-re-sent-without-re-PREPARE)"
       else s!"reject:{i}:{w}:{why o (evs.getD i .crash)}"
 
-/-! ### sequential executions: exact prediction by the connection-level machine `PConn`
+/-! ### sequential executions: exact prediction by the connection-level machine with the real LRU (`PLru`)
 
-  seq cap=<n> ids=<stable|fresh> cols=<n0,n1,..> pf=<o|e>* xf=<o|e|f|u>* <call> <call> ...
+  seq cap=<n> ids=<stable|fresh> cols=<n0,n1,..> pf=<o|e|g|k>* xf=<o|e|f|u>* <call> <call> ...
       call = <q|b>:<key>/<nvals>,...          key = h<i>.s<j>
   One caller at a time. The driver's hidden actions are then determined (lookup, the flight's PREPARE, its
-  completion, observe, finish), the LRU (Model/LRU.lean) decides which entry a full cache purges, and the
-  scripted server is replayed (pf: answer to the i-th PREPARE; xf: fate of the i-th EXECUTE/BATCH that carries
+  completion, observe, finish): a schedule of `PLru` (proved to refine `PConn` and to keep the cache within its
+  capacity: C14_conn_lru_refines, C14_conn_lru_bound), whose LRU decides which entry a full cache purges, and the
+  scripted server is replayed (pf: answer to the i-th PREPARE - PREPARED / ERROR frame / undecodable frame / answer
+  of another kind; the ids are tokens `PConn.token raw-id (bindSig ..)`: id plus value widths; xf: fate of the i-th EXECUTE/BATCH that carries
   only known ids: ok / error / forget everything on that host and answer UNPREPARED / UNPREPARED with a
   foreign id; a frame with an id the host does not know is answered UNPREPARED(that id)).
   Answer: the observable trace, in the words of `trace`. -/
 
+def showTok (t : PConn.Id) : String :=
+  let p := PConn.untoken t
+  toHex p.1 ++ "/" ++ toHex p.2
+
 def showXAns : PConn.XAns → String
-  | .ok => "ok" | .err => "err" | .unprep id => "un/" ++ toHex id
+  | .ok => "ok" | .err => "err" | .unprep id => "un/" ++ showTok id
 
 def showEvW : PConn.Ev String → String
   | .start c b es => s!"S:{c}:{if b then "b" else "q"}:" ++ ",".intercalate (es.map fun e => s!"{e.1}/{e.2}")
-  | .prep f k (some (id, n)) => s!"P:{f}:{k}:ok/{toHex id}/{n}"
+  | .prep f k (some (id, n)) => s!"P:{f}:{k}:ok/{toHex (PConn.untoken id).1}/{n}/{toHex (PConn.untoken id).2}"
   | .prep f k none => s!"P:{f}:{k}:err"
   | .rm k f => s!"R:{k}:{f}"
-  | .exec c ids a => s!"X:{c}:" ++ ",".intercalate (ids.map toHex) ++ ":" ++ showXAns a
+  | .exec c ids a => s!"X:{c}:" ++ ",".intercalate (ids.map showTok) ++ ":" ++ showXAns a
   | .ret c .ok => s!"T:{c}:ok"
   | .ret c .execErr => s!"T:{c}:xe"
   | .ret c .countErr => s!"T:{c}:ce"
@@ -208,9 +238,19 @@ def keyParts (k : String) : Nat × Nat :=
   | [h, st] => (((h.drop 1).toNat?).getD 0, ((st.drop 1).toNat?).getD 0)
   | _ => (0, 0)
 
+/-- pf letters that make a PREPARE fail: ERROR frame / undecodable answer / answer of another kind -/
+def isFailLetter (ch : Char) : Bool := ch == 'e' || ch == 'g' || ch == 'k'
+
+def failWord : Char → String
+  | 'g' => "undecodable" | 'k' => "other-kind" | 's' => "silent" | _ => "frame"
+
+/-- the scripted server's bind metadata for statement number st (PREPARE number `serial`, 0 when ids are stable):
+    column i has the type whose values are 4, 8, 2, 1 bytes wide (int, bigint, smallint, tinyint), rotating -/
+def bindSig (st serial nc : Nat) : List UInt8 :=
+  (List.range nc).map fun i => [4, 8, 2, 1].getD ((st + serial + i) % 4) 4
+
 structure Seq where
-  p     : PConn.State String
-  lru   : LRU.Cache String Nat
+  s     : PLru.State String           -- the connection-level machine with the real LRU (Model/Prepare.lean PLru)
   reg   : List (Nat × List UInt8)     -- (host, id) the server knows
   pf    : List Char
   xf    : List Char
@@ -219,15 +259,13 @@ structure Seq where
   nprep : Nat
   out   : List (PConn.Ev String)
   bad   : Option String
+  fk    : List (Nat × Char) := []     -- how the failed PREPAREs failed (pf letter), for printing only
 
-def Seq.act (q : Seq) (a : PConn.Action String) : Seq :=
+def Seq.act (q : Seq) (a : PLru.Action String) : Seq :=
   if q.bad.isSome then q else
-  match PConn.step q.p a with
+  match PLru.step q.s a with
   | none => { q with bad := some "action-not-enabled" }
-  | some (p', evs) =>
-    -- whatever left the cache leaves the LRU too
-    let lru' := evs.foldl (fun l e => match e with | .rm k _ => (l.remove k).2.1 | _ => l) q.lru
-    { q with p := p', lru := lru', out := q.out ++ evs }
+  | some (s', evs) => { q with s := s', out := q.out ++ evs }
 
 /-- the scripted server's answer to a frame carrying `ids` on host h; returns the new registry and the rest of xf -/
 def serverX (q : Seq) (h : Nat) (ids : List (List UInt8)) : PConn.XAns × List (Nat × List UInt8) × List Char :=
@@ -237,7 +275,7 @@ def serverX (q : Seq) (h : Nat) (ids : List (List UInt8)) : PConn.XAns × List (
     match q.xf with
     | 'e' :: r => (.err, q.reg, r)
     | 'f' :: r => (.unprep (ids.headD []), q.reg.filter (fun x => x.1 != h), r)
-    | 'u' :: r => (.unprep (ascii "other-id"), q.reg, r)
+    | 'u' :: r => (.unprep (PConn.token (ascii "other-id") []), q.reg, r)
     | _ :: r => (.ok, q.reg, r)
     | [] => (.ok, q.reg, [])
 
@@ -246,7 +284,7 @@ def Seq.callLoop (c : Nat) : Nat → Seq → Seq
   | 0, q => { q with bad := some "out-of-fuel" }
   | fuel + 1, q =>
     if q.bad.isSome then q else
-    match q.p.callers[c]? with
+    match q.s.p.callers[c]? with
     | none => { q with bad := some "no-caller" }
     | some cl =>
       match cl.pc with
@@ -258,41 +296,37 @@ def Seq.callLoop (c : Nat) : Nat → Seq → Seq
         match cl.entries[cl.got.length]? with
         | none => { q with bad := some "no-entry" }
         | some e =>
-          -- execIfMissing: Get (moves to front) or Add (may purge the oldest)
-          match q.lru.get e.1 with
-          | (some _, l') => Seq.callLoop c fuel ({ q with lru := l' }.act (.lookup c))
-          | (none, _) =>
-            let f := q.p.flights.length
-            let r := q.lru.add e.1 f
-            let q1 := { q with lru := r.1 }.act (.lookup c)
-            let q2 := r.2.foldl (fun (qq : Seq) ev => qq.act (.evict ev.1)) q1
+          -- execIfMissing (PLru.stepLookup): Get (moves to front) or Add (may purge the oldest)
+          match q.s.lru.find e.1 with
+          | some _ => Seq.callLoop c fuel (q.act (.lookup c))
+          | none =>
+            let f := q.s.p.flights.length
+            let q2 := q.act (.lookup c)
             -- the flight's goroutine: PREPARE, answer, completion
             let (hh, st) := keyParts e.1
             let serial := q2.nprep
+            let letter := q2.pf.headD 'o'
             let ans : PConn.PAns × List (Nat × List UInt8) :=
-              match q2.pf.head? with
-              | some 'e' => (none, q2.reg)
-              | _ =>
-                let id := if q2.stable then ascii ("S" ++ pad st 2) else ascii ("s" ++ pad st 2 ++ "n" ++ pad serial 4)
-                (some (id, q2.cols.getD st 0), (hh, id) :: q2.reg)
-            let q3 := { q2 with pf := q2.pf.drop 1, reg := ans.2, nprep := serial + 1 }.act (.spawn c) |>.act (.srvPrepare f ans.1)
+              if isFailLetter letter then (none, q2.reg)
+              else
+                let raw := if q2.stable then ascii ("S" ++ pad st 2) else ascii ("s" ++ pad st 2 ++ "n" ++ pad serial 4)
+                let nc := q2.cols.getD st 0
+                let id := PConn.token raw (bindSig st (if q2.stable then 0 else serial) nc)
+                (some (id, nc), (hh, id) :: q2.reg)
+            let q3 := { q2 with pf := q2.pf.drop 1, reg := ans.2, nprep := serial + 1,
+                                fk := if isFailLetter letter then (f, letter) :: q2.fk else q2.fk }.act (.spawn c) |>.act (.srvPrepare f ans.1)
             Seq.callLoop c fuel (q3.act (.complete f))
       | .waiting f =>
         let (hh, _) := keyParts ((cl.entries.headD ("", 0)).1)
-        let ids := (cl.got ++ [f]).map (PConn.idOf q.p)
+        let ids := (cl.got ++ [f]).map (PConn.idOf q.s.p)
         let sx := serverX q hh ids
         let q1 := q.act (.observe c sx.1)
         -- the server acted only if the frame was sent
         let sent := (q1.out.drop q.out.length).any fun | .exec _ _ _ => true | _ => false
         Seq.callLoop c fuel (if sent then { q1 with reg := sx.2.1, xf := sx.2.2 } else q1)
-      | .answered a =>
-        -- evictPreparedID looks the key up (recency!) before deciding
-        let q1 := match a with
-          | .unprep id => match PConn.unprepKey q.p cl id with
-            | some k => { q with lru := (q.lru.get k).2 }
-            | none => q
-          | _ => q
-        Seq.callLoop c fuel (q1.act (.finish c))
+      | .answered _ =>
+        -- PLru.stepFinish: evictPreparedID looks the key up (recency!) before deciding
+        Seq.callLoop c fuel (q.act (.finish c))
 
 def parseCall (w : String) : Option (Bool × List (String × Nat)) :=
   match w.splitOn ":" with
@@ -309,15 +343,17 @@ def runSeq (ws : List String) : String :=
   match calls with
   | none => "bad-op"
   | some calls =>
-    let q0 : Seq := { p := PConn.init, lru := LRU.new ((kvs ws "cap").toInt?.getD 0), reg := [], pf := (kvs ws "pf").toList,
+    let q0 : Seq := { s := PLru.init ((kvs ws "cap").toInt?.getD 0), reg := [], pf := (kvs ws "pf").toList,
                       xf := (kvs ws "xf").toList, stable := kvs ws "ids" == "stable",
                       cols := ((kvs ws "cols").splitOn ",").map fun x => x.toNat?.getD 0, nprep := 0, out := [], bad := none }
     let q := calls.foldl (fun (q : Seq) cl =>
-      let c := q.p.callers.length
+      let c := q.s.p.callers.length
       Seq.callLoop c 400 (q.act (.call cl.1 cl.2))) q0
     match q.bad with
     | some b => "stuck:" ++ b
-    | none => " ".intercalate (q.out.map showEvW)
+    | none => " ".intercalate (q.out.map fun e => match e with
+        | .prep f _ none => showEvW e ++ "/" ++ failWord (((q.fk.find? fun x => x.1 == f).map (·.2)).getD 'e')
+        | _ => showEvW e)
 
 def hexKey (h ks st : List UInt8) : String := toHex (Prepare.keyFor h ks st)
 
